@@ -287,7 +287,7 @@ class Analyzer:
         out_heralds = self.circuit.heralds["output"]
         for state in outputs:
             # Check output meets all post selection rules
-            if self.post_selection.validate(state):
+            if self.post_selection.validate(State(state)):
                 fo = add_heralds_to_state(state, out_heralds)
                 filtered_outputs += [State(state)]
                 full_outputs += [fo]
